@@ -756,6 +756,43 @@ theorem toC_sum (l : List C) : toC ((l.map (·.1)).sum, (l.map (·.2)).sum) = (l
     simp only [List.map_cons, List.sum_cons]
     rw [← ih, ← toC_add]
 
+/-- the model trace of an exactly Hermitian, well-sized model matrix exists and is real -/
+theorem trace_real_of_hermitian (M : CMat) (hok : M.ok = true) (hH : M.toMatrix.IsHermitian) :
+    ∃ x : Rat, M.trace = some (x, 0) := by
+  have hlen : M.e.length = M.d * M.d := by simpa [CMat.ok] using hok
+  have hm : (List.range M.d).mapM (fun i => M.e[i * M.d + i]?) =
+      some ((List.range M.d).map fun i => M.e.getD (i * M.d + i) (0, 0)) := by
+    apply mapM_some_map
+    intro i hi
+    rw [List.mem_range] at hi
+    have hidx : i * M.d + i < M.e.length := by
+      rw [hlen]
+      calc i * M.d + i < i * M.d + M.d := by omega
+        _ = (i + 1) * M.d := by ring
+        _ ≤ M.d * M.d := Nat.mul_le_mul_right _ hi
+    simp [List.getD_eq_getElem?_getD, List.getElem?_eq_getElem hidx]
+  -- diagonal entries are real
+  have hdiag : ∀ i, i < M.d → (M.e.getD (i * M.d + i) (0, 0)).2 = 0 := by
+    intro i hi
+    have h := congrFun (congrFun hH ⟨i, hi⟩) ⟨i, hi⟩
+    simp only [Matrix.conjTranspose_apply, CMat.toMatrix, Matrix.of_apply] at h
+    have := (toC_eq_star_iff _ _).1 h.symm
+    have h2 := congrArg Prod.snd this
+    simp only at h2
+    linarith
+  refine ⟨((List.range M.d).map fun i => (M.e.getD (i * M.d + i) (0, 0)).1).sum, ?_⟩
+  unfold CMat.trace
+  rw [hm]
+  simp only [Option.map_some, Option.some.injEq, foldl_add_const, zero_add, List.map_map]
+  refine Prod.ext rfl ?_
+  simp only
+  apply List.sum_eq_zero
+  intro x hx
+  rw [List.mem_map] at hx
+  obtain ⟨i, hi, rfl⟩ := hx
+  exact hdiag i (List.mem_range.1 hi)
+
+
 end bridge2
 
 end QM.C01
